@@ -60,6 +60,9 @@ func payloadFor(in map[string]any, chain *vh.Chain, rnd *rand.Rand) []byte {
 		case "unknown":
 			h = make([]byte, 32)
 			rnd.Read(h)
+			if t := mbt.Int(in, "tail"); mbt.Bool(in, "fprune") && t > 1 {
+				h = chain.At(uint64(t - 1)).Hash() // a header that has been pruned: unknown to the store
+			}
 		case "empty":
 			h = []byte{}
 		case "short":
@@ -91,12 +94,15 @@ func TestServer(t *testing.T) {
 	defer tw.Close()
 	rnd := rand.New(rand.NewSource(seed()))
 	// group by (tail, head): one store + server per group and bubble
-	type key struct{ t, h int }
+	type key struct {
+		t, h int
+		f    bool // pruned with an interrupted and retried deletion
+	}
 	groups := map[key][]map[string]any{}
 	var order []key
 	for _, c := range cases {
 		in := mbt.Map(c, "in")
-		k := key{mbt.Int(in, "tail"), mbt.Int(in, "head")}
+		k := key{mbt.Int(in, "tail"), mbt.Int(in, "head"), mbt.Bool(in, "fprune")}
 		if _, ok := groups[k]; !ok {
 			order = append(order, k)
 		}
@@ -105,7 +111,9 @@ func TestServer(t *testing.T) {
 	for _, k := range order {
 		synctest.Test(t, func(t *testing.T) {
 			chain := vh.NewChain(networkID, 1, k.h+3, time.Now().Add(-time.Hour), time.Second, 0)
+			pruneFault = k.f
 			st, rs := newStore(t, chain, k.t, k.h)
+			pruneFault = false
 			proxy := &storeProxy{Store: st}
 			net, hosts := newNet(t, 2)
 			srv, err := p2p.NewExchangeServer[*vh.Header](hosts[1], proxy, p2p.WithNetworkID[p2p.ServerParameters](networkID))
